@@ -121,6 +121,7 @@ PROPS = {
         parts=[
             dict(name="deg", bin="main", workers={Q: 2, T: 2}, cases={Q: 6000, T: 200000}),
             dict(name="allocfail", bin="main", workers={Q: 2, T: 3}, cases={Q: 300, T: 3000}),
+            dict(name="allocfail_tree", bin="main", workers={Q: 2, T: 3}, cases={Q: 4000, T: 40000}),
             dict(name="fuzz_bool", kind="fuzz", bin="fuzz_bool", workers={Q: 2, T: 2}, seconds={Q: 45, T: 900}),
             dict(name="fuzz_bool_z", kind="fuzz", bin="fuzz_bool_z", corpus="fuzz_bool", workers={Q: 1, T: 1}, seconds={Q: 45, T: 900}),
             dict(name="fuzz_bool_big", kind="fuzz", bin="fuzz_bool_big", corpus="fuzz_bool", workers={Q: 2, T: 2}, seconds={Q: 45, T: 900}),
@@ -143,7 +144,8 @@ PROPS = {
               "executions, non-trivial = a corpus unit (coverage-distinct input) that produced a non-empty result; (b) "
               "rapidcheck over degenerate structured inputs through 12 operation families; (c) allocation-failure "
               "enumeration: for each generated small case the k-th allocation inside the operation throws std::bad_alloc "
-              "for EVERY k (400 stratified k when an operation allocates more than 400 times) - the exception must reach "
+              "for EVERY k (400 stratified k when an operation allocates more than 400 times; a second part concentrates on PolyTree execution of "
+              "tiny-grid / rectilinear inputs where joins and splits re-link rings between allocations) - the exception must reach "
               "the caller and all objects must destruct cleanly under ASan; non-trivial = operation with >= 10 allocations"),
         assumptions=["NaN/inf parameters, |delta| > 2^20 and coordinates beyond the stated magnitudes are not generated",
                      "signed-overflow/float-cast checks are off in the *_big builds (the property promises overflow-free arithmetic only up to 2^29)",
